@@ -248,6 +248,25 @@ SameCyclic(a, b) ==
           ELSE \E r \in 0..(Len(a.segs) - 1) : RotSegs(a.segs, r) = b.segs
 SameUpToStart(ga, gb) == Len(ga) = Len(gb) /\ \A i \in 1..Len(ga) : SameCyclic(ga[i], gb[i])
 
+(* A closed contour WITHOUT on-curve point has no start point of its own: its geometry is the
+   closed quadratic B-spline through the implied midpoints of consecutive off-curve points.
+   TrueType stores just the off-curve points, the pen protocol passes them as
+   qCurveTo(off_1 .. off_n, None), and whoever draws it begins at some implied point (BasePen:
+   between off_n and off_1).  Which implied point that is -- and hence the rotation of the
+   segment list -- is representation, not geometry: such contours are always compared up to
+   rotation (SameCyclic), also where an adapter otherwise documents that it keeps the start
+   point.  FillTagged pairs every drawn contour of GeoFill with that licence.               *)
+FreeStart(it) == it.k = "c" /\ it.cl /\ FirstOn(it.pts) = 0
+TaggedDrawn(x) == IsDrawn(x[1])
+FillTagged(items) ==
+  LET g == Geom(Good(items))
+  IN SelectSeq([i \in 1..Len(items) |-> <<GeoPlainItem(CloseItem(g[i])), FreeStart(items[i])>>], TaggedDrawn)
+(* same filled geometry, same start points except where the input contour has none *)
+SameFillStart(itemsIn, itemsOut) ==
+  LET a == FillTagged(itemsIn)  b == FillTagged(itemsOut) IN
+  /\ Len(a) = Len(b)
+  /\ \A i \in 1..Len(a) : IF a[i][2] THEN SameCyclic(a[i][1], b[i][1]) ELSE a[i][1] = b[i][1]
+
 (* Structure level.  NormSingle: a contour of one point (on- or off-curve) has no extent and
    no observable closedness; BasePointToSegmentPen emits it as a lone "move" ("not much more
    we can do"), reversedContour documents "single-point paths can't be closed".
